@@ -131,10 +131,6 @@ def buildBA (d : FileDesc) : ByteArray :=
 def fileOfBA (ba : ByteArray) : File :=
   ⟨ba.size, fun i => if h : i < ba.size then (ba.get i h).toNat else 0⟩
 
-def hashRange (f : File) (h : UInt64) (a : Nat) : Nat → UInt64
-  | 0 => h
-  | n + 1 => hashRange f (fnvByte h (f.byte a)) (a + 1) n
-
 def hex64 (h : UInt64) : String :=
   String.ofList ((List.range 16).map (fun i => hexChar ((h.toNat / 16 ^ (15 - i)) % 16)))
 
@@ -145,23 +141,6 @@ def dump (r : RState) : String :=
   "\t".intercalate (toString ((r.curN : Int) - 1) :: r.files.map dumpQ)
 
 def tsOfD (s : DState) : Bytes → Int := readTimestamp (parseTime s.base s.datePre)
-
-/-- `n` reader-level reads; `(state, cnt, end, hash)`. -/
-def rReadMany (P : Params) (fs : List File) : Nat → RState → Nat → UInt64 → RState × Nat × Option Err × UInt64
-  | 0, r, cnt, h => (r, cnt, none, h)
-  | n + 1, r, cnt, h =>
-    match rReadNext P fs r with
-    | (r', .ok (k, a, b)) =>
-      rReadMany P fs n r' (cnt + 1) (fnvByte (hashRange (fs.getD k noFile) h a (b - a)) 10)
-    | (r', .error e) => (r', cnt, some e, h)
-
-/-- `n` file-level reads. -/
-def fReadMany (P : Params) (f : File) : Nat → QState → Nat → UInt64 → QState × Nat × Option Err × UInt64
-  | 0, q, cnt, h => (q, cnt, none, h)
-  | n + 1, q, cnt, h =>
-    match readNext P f q with
-    | (q', .ok (a, b)) => fReadMany P f n q' (cnt + 1) (fnvByte (hashRange f h a (b - a)) 10)
-    | (q', .error e) => (q', cnt, some e, h)
 
 def endName : Option Err → String
   | none => "more"
@@ -192,26 +171,13 @@ def parseObs (op : Op) (impl : List String) : Option Obs :=
 
 /-- Run the model on one op: new reader state and the result fields. -/
 def runModel (s : DState) (op : Op) : RState × String :=
-  let tsOf := tsOfD s
-  match op with
-  | .start => (rSeekStart s.fs s.r, "ok")
-  | .next n =>
-    let (r, cnt, e, h) := rReadMany s.P s.fs n s.r 0 fnvInit
-    (r, s!"{cnt}\t{endName e}\t{hex64 h}")
-  | .seek ts =>
-    match rSeekTS s.P s.fs tsOf s.r ts with
-    | (r, .ok _) => (r, "ok")
-    | (r, .error e) => (r, "err\t" ++ errName e)
-  | .fstart k =>
-    let q := seekStart (s.fs.getD k noFile) (s.r.files.getD k {})
-    ({ s.r with files := s.r.files.set k q }, s!"ok\t{q.position}")
-  | .fnext k n =>
-    let (q, cnt, e, h) := fReadMany s.P (s.fs.getD k noFile) n (s.r.files.getD k {}) 0 fnvInit
-    ({ s.r with files := s.r.files.set k q }, s!"{cnt}\t{endName e}\t{hex64 h}")
-  | .fseek k ts =>
-    match seekTS s.P (s.fs.getD k noFile) tsOf (s.r.files.getD k {}) ts with
-    | (q, .ok (pos, depth)) => ({ s.r with files := s.r.files.set k q }, s!"ok\t{pos}\t{depth}")
-    | (q, .error e) => ({ s.r with files := s.r.files.set k q }, "err\t" ++ errName e)
+  match modelStep s.P s.fs (tsOfD s) s.r op with
+  | (r, .start none) => (r, "ok")
+  | (r, .start (some pos)) => (r, s!"ok\t{pos}")
+  | (r, .next ls e) => (r, s!"{ls.length}\t{endName e}\t{hex64 (hashRanges s.fs ls)}")
+  | (r, .seek (.ok none)) => (r, "ok")
+  | (r, .seek (.ok (some (pos, depth)))) => (r, s!"ok\t{pos}\t{depth}")
+  | (r, .seek (.error e)) => (r, "err\t" ++ errName e)
 
 def parseOp (n : Nat) (name : String) (ins : List String) : Option Op :=
   match name, ins with
